@@ -162,7 +162,7 @@ def inv_memmap(sim, circuit, strip_forks, c_reuse):
     nlines = len(circuit.lines)
     zero, tmp, tmp2 = sim.zero_idx, sim.tmp_idx, sim.tmp2_idx
     order, deps = W.line_deps(circuit, strip_forks=strip_forks)
-    resolve = lambda x: deps[x][1] if (x in deps and deps[x][0] == 'alias') else x
+    resolve = lambda x: deps[x][1] if (x in deps and deps[x][0] == 'alias') else (zero if (x in deps and deps[x][0] == 'zero') else x)
     level_of_op = np.zeros(len(ops), dtype=np.int64)
     for lv, (a, b) in enumerate(zip(sim.level_starts, sim.level_stops)):
         level_of_op[a:b] = lv
@@ -213,6 +213,9 @@ def inv_memmap(sim, circuit, strip_forks, c_reuse):
                 bad.append(f'operation {i} in level {lv} reads line {x} whose producer (line {o}) runs in level {birth[o]}')
     # aliases: a stripped branch has exactly the location and capacity of its stem
     for li, d in deps.items():
+        if d[0] == 'zero':
+            if c_locs[li] != c_locs[zero]:
+                bad.append(f'branch line {li} of a stripped undriven fork is at {c_locs[li]}, not at the constant-0 slot {c_locs[zero]}')
         if d[0] == 'alias':
             stats['alias_lines'] += 1
             if c_locs[li] != c_locs[d[1]] or c_caps[li] != c_caps[d[1]]:
